@@ -13,12 +13,17 @@ checks WHICH key and WHICH expected digest the real verification uses.
 Sessions (`impl/c04_sessions.py`): the same oracle, tie and tagged tie for ONE long-lived `Repository` object that issues a plan
 of commands (restore / list / delete, snapshots taken through it) while objects are damaged, healed and damaged again between its
 commands — the client's state is part of what the property quantifies over (`symsess.run`, `session_*` theorems).
+Several snapshots (`impl/c04_multisnap.py`): boundary damage (truncation to 0 / 1 / len−1 bytes, empty values) of every object kind in
+repositories whose paths have several versions × the commands that SELECT among the loaded snapshots (restore / list-files /
+list-snapshots, unfiltered and filtered to the damaged name); oracle: a command that returns normally after damage returns exactly
+what it returns on the undamaged repository (`symmulti.run`, last section of Properties/C04.lean).
 """
 import json
 import multiprocessing as mp
 import os
 
 from ..common import rng_for
+from ..impl import c04_multisnap as M
 from ..impl import c04_sessions as S
 from ..impl import runner as R
 from ..impl import symhist as H
@@ -361,6 +366,7 @@ def run(out, drv, info):
     quick = out.tier == 'quick'
     n_repo, n_tag = (120, 80) if quick else (400, 300)
     n_sess, n_tsess = (200, 60) if quick else (1500, 300)
+    n_multi = 32 if quick else 96
     out.rule = ('case = repository (encrypted?, cipher × key size, hash, (min,max), 1–2 snapshots of 1–3 files incl. empty files and shared blocks) × corruption of the objects '
                 'a restore-by-name of the target snapshot needs or may meet: flip bit (nonce / body / tag / JSON / base64 regions), truncate (0, 1, 11, 12, 27, 28, half, '
                 'len-1, len), extend (1 / 16 bytes), delete, swap (chunk↔chunk, chunk↔snapshot, snapshot↔snapshot), replay under another name (existing location, made-up '
@@ -370,20 +376,29 @@ def run(out, drv, info):
                 'client; encrypted and unencrypted in equal parts) runs a plan of 2–5 (thorough: up to 10) steps (damage, command): damage = any operator combination above applied '
                 'to the honest objects | keep the previous damage | none (healed); command = restore by name / list files / list snapshots / delete of another snapshot; every plan '
                 'has warm-up on the intact repository → damage of an object the warm-up used → restore.  non-trivial = the damaged object is needed by the command; `stateful` = '
-                'the object had handled the damaged object in an earlier command')
+                'the object had handled the damaged object in an earlier command.  '
+                'Several snapshots: repository of 2–3 snapshots in which paths have several versions (changed / kept / added / removed paths, shared blocks; encrypted and '
+                'unencrypted in equal parts) × damage of {snapshot object of the newest version, of an older one, a chunk only the newest version needs, a chunk shared '
+                'between versions, a chunk only an older version needs, the config object}: truncate to 0 / 1 / len-1, replace by `{}` / `null`, and half / flip / extend / '
+                'delete / older snapshot object replayed over the newest / two snapshot objects swapped, newest snapshot emptied together with an older one / a chunk '
+                '(thorough: every operator on every snapshot and chunk object) × {restore, list-files, list-snapshots} × {no filter, name of the damaged snapshot}, each '
+                'by a fresh client without cache.  non-trivial = the command reads the damaged object')
     out.assumptions = ['ideal hash and AEAD in the model: a corrupted / truncated / extended object is a term different from every honestly produced one (no collision, no forgery)',
                        'restore selected by snapshot name; a removed or unreachable snapshot object makes restore write nothing (class `nothing`), which the property allows',
                        'the local snapshot cache is not a repository object (C18); the memory backend does not retry; back-off sleeps are not involved',
                        'error kinds are compared after mapping cryptography\'s ValueError for ciphertexts shorter than a nonce to `decryption`',
                        'sessions: the adversary acts between commands, not during one; one object = one event loop, commands one after the other (no two commands of one '
-                       'object at the same time)']
+                       'object at the same time)',
+                       'several snapshots: a removed snapshot object is indistinguishable from a snapshot never taken (reference = the honest objects under the locations '
+                       'still listed); when `Gen.snapLoadNeverSkipsListedOwn` is false the model takes the reading that the zero-length object is dropped']
     ctx = mp.get_context('fork')
     with ctx.Pool(min(16, os.cpu_count() or 4)) as pool:
         a = pool.map_async(w_repo, [(out.seed, i, out.tier) for i in range(n_repo)], chunksize=1)
         b = pool.map_async(w_tagged, [(out.seed, i, out.tier) for i in range(n_tag)], chunksize=2)
         c = pool.map_async(S.w_session, [(out.seed, i, out.tier) for i in range(n_sess)], chunksize=2)
         d = pool.map_async(S.w_tagged_session, [(out.seed, i, out.tier) for i in range(n_tsess)], chunksize=2)
-        repos, tags, sessions, tsessions = a.get(), b.get(), c.get(), d.get()
+        e = pool.map_async(M.w_multi, [(out.seed, i, out.tier) for i in range(n_multi)], chunksize=1)
+        repos, tags, sessions, tsessions, multis = a.get(), b.get(), c.get(), d.get(), e.get()
     for rp in repos:
         if rp.get('crashed'):
             out.case({'crashed': rp['idx']}, False)
@@ -435,6 +450,7 @@ def run(out, drv, info):
                 out.violation('c04:tagged:substitution-accepted' if ch['real'] == 'ok' else 'c04:tagged:honest-rejected',
                               f'chunk object {ch["j"]} at the location of chunk {ch["i"]}: restore → {ch["real"]}', {'kind': 'tagged', 'seed': out.seed, 'idx': tg['idx'], 'tier': out.tier})
     judge_sessions(out, drv, sessions, tsessions)
+    M.judge(out, drv, multis)
 
 
 def judge_sessions(out, drv, sessions, tsessions):
@@ -562,5 +578,7 @@ def replay(path, drv):
         for st in res.get('steps', []):
             print(st)
         return 1 if any((st['real'] == 'ok') != (st['sub'] is None) or not st['content_ok'] or (st['real'] == 'ok' and not st['rehashed_all']) for st in res.get('steps', [])) else 0
+    if rp.get('kind') == 'multi':
+        return M.replay(rp, drv)
     print('replay kind not supported')
     return 2
